@@ -21,277 +21,22 @@
   `.external` and `.fill` is irrelevant because the external test is made at the end of the pass.)
   Together with `link_fills_external` this is the whole property at the level of one link step; nested links are covered
   by the correspondence check.
+  Session 5 (Lemmas/LinkExternal; the theorems above now live in Lemmas/C21Core): whole-link composition.  For any number of
+  files assembled from source and linked in any order and grouping (`C20.LTree`): `tree_fills_external` — a relocation entry
+  `(X, K)` of one of the files and a definition of `K` at `V` in one of the files put `V` at `X` in the result and the entry
+  is no longer pending; `tree_unresolved_refuses_load` — an entry whose label no linked file defines stays pending, the label
+  stays external, the result lists external symbols and loading it fails with `UnresolvedExternal`, machine untouched.
+  (`source_fill_external_owns_entry` says which entries an assembled file has: one per `.fill` of an external label.)
 -/
-import Lc3V.Model.Asm
-import Lc3V.Props.C29
-import Lc3V.Lemmas.TwoPass
-import Lc3V.Lemmas.LinkPatch
-import Lc3V.Lemmas.RelOwn
-import Lc3V.Lemmas.ErrSpans
-import Lc3V.Lemmas.ParserDischarge
-import Lc3V.Props.C01
-set_option linter.unusedSimpArgs false
+import Lc3V.Lemmas.C21Core
+import Lc3V.Lemmas.LinkExternal
 namespace Lc3V.C21
 open Lc3V
-
-def isExternalIn (labels : List (Key × SymData)) (k : Key) : Bool :=
-  match lookupKey labels k with | some ⟨_, _, true⟩ => true | _ => false
-
-/-- every relocation entry of an assembled file names a label that is external at the end of pass 1 -/
-theorem rel_entries_are_external (stmts : List Stmt) (src : Option (List Char)) (t : SymTab) (h : pass1 stmts src = .ok t) :
-    ∀ e ∈ t.rel, isExternalIn t.labels e.2 = true := by
-  unfold pass1 at h
-  split at h
-  · cases h
-  · rename_i st hst
-    unfold p1Finish at h
-    split at h
-    · cases h
-    · cases h
-      intro e he
-      have := (List.mem_filter.mp he).2
-      exact this
-
-/-- a labelled `.fill` inside a block always records a candidate entry, whatever is known about the label at that point -/
-theorem fill_records_candidate (st : P1) (stmt : Stmt) (labels : List (Key × SymData)) (l : Label) (cur : Cursor)
-    (hn : stmt.nucleus = .directive (.fill (.label l))) (hc : st.cursor = some cur) :
-    p1Special st stmt labels = .ok (st.cursor, labels, relInsert st.rel cur.lc (upperS l.name)) := by
-  unfold p1Special
-  simp only [hn, hc]
-
-/-- the symbol table survives assembling without debug symbols when an external label is declared -/
-theorem externals_keep_symbol_table (stmts : List Stmt) (t : SymTab) (debug : Bool) (o : ObjFile)
-    (h : pass2 stmts t debug = .ok o) (he : t.labels.any (fun e => e.2.ext) = true) : o.sym = some t := by
-  unfold pass2 at h
-  split at h
-  · cases h
-  · cases h; simp [he]
-
-/-- an object file with a symbol table lists its external labels; non-empty exactly when one is declared -/
-theorem external_symbols_nonempty (o : ObjFile) (t : SymTab) (hs : o.sym = some t) (k : Key) (d : SymData)
-    (hm : (k, d) ∈ t.labels) (he : d.ext = true) : o.externalSymbols ≠ [] := by
-  unfold ObjFile.externalSymbols
-  rw [hs]
-  intro hnil
-  have : k ∈ (t.labels.filter (fun e => e.2.ext)).map (·.1) := List.mem_map.mpr ⟨(k, d), List.mem_filter.mpr ⟨hm, he⟩, rfl⟩
-  have hnil' : (t.labels.filter (fun e => e.2.ext)).map (·.1) = [] := hnil
-  rw [hnil'] at this
-  cases this
-
-/-- loading is refused (and the machine untouched) while an external label is unresolved -/
-theorem load_refused (s : Sim) (blocks : List (W × List (Option W))) :
-    s.loadObj blocks true = (.error .unresolvedExternal, s) := (C29.load_frame s blocks true).2 rfl
-
-/-- linking an external declaration with a definition: the label becomes the definition, its relocation entries (and only
-    those) are consumed and become patches of the defining address -/
-theorem link_resolves (st : LinkSt) (label : Key) (ad bd : SymData) (hl : lookupKey st.labels label = some ad)
-    (hx : ad.ext ≠ bd.ext) :
-    linkLabel st (label, bd) = .ok
-      ⟨setKey st.labels label (if ad.ext then bd else ad), st.rel.filter (fun r => !(r.2 == label)),
-       st.relocs ++ (st.rel.filter (fun r => r.2 == label)).map (fun r => (r.1, (if ad.ext then bd else ad).addr))⟩ := by
-  unfold linkLabel
-  dsimp only
-  rw [hl]
-  dsimp only
-  have h1 : (ad.ext && bd.ext) = false := by cases ha : ad.ext <;> cases hb : bd.ext <;> simp_all
-  have h2 : (ad.ext || bd.ext) = true := by cases ha : ad.ext <;> cases hb : bd.ext <;> simp_all
-  simp only [h1, h2, Bool.false_eq_true, if_false, if_true, List.partition_eq_filter_filter]
-  congr 2
-
-/-- a patch at an address inside a block sets exactly that word -/
-theorem patch_sets_word (start : Nat) (block : List (Option W)) (addr v : W) (h1 : start ≤ addr.toNat)
-    (h2 : addr.toNat - start < block.length) :
-    patchWord [(start, block)] addr v = [(start, block.set (addr.toNat - start) (some v))] := by
-  unfold patchWord
-  simp [h1, h2]
-
-/-- an `.external` declaration of a name not bound before makes the name external in the label table after that statement -/
-theorem external_declared (st st' : P1) (stmt : Stmt) (l : Label) (h : pass1Step st stmt = .ok st')
-    (hn : stmt.nucleus = .directive (.external l)) (hl : stmt.labels = [])
-    (hfresh : lookupKey st.labels (upperS l.name) = none) :
-    ∃ d, lookupKey st'.labels (upperS l.name) = some d ∧ d.ext = true := by
-  unfold pass1Step at h
-  have h1 : p1Labels st stmt = .ok st.labels := by unfold p1Labels; simp [hl]
-  rw [h1] at h
-  dsimp only at h
-  have h2 : p1Special st stmt st.labels = .ok (st.cursor, st.labels ++ [(upperS l.name, ⟨0, l.start, true⟩)], st.rel) := by
-    unfold p1Special
-    simp only [hn, addLabel, hfresh]
-  rw [h2] at h
-  dsimp only at h
-  have hfin : st'.labels = st.labels ++ [(upperS l.name, ⟨0, l.start, true⟩)] := by
-    unfold p1Advance at h
-    split at h
-    · cases h; rfl
-    · dsimp only at h; split at h
-      · cases h
-      · cases h; rfl
-  rw [hfin]
-  exact ⟨_, C01.lookupKey_append_new _ _ _ hfresh, rfl⟩
-
-/-- **never silently unresolved**: a program that declares a name external (not bound earlier in the file) assembles — with
-    or without debug symbols — to an object file whose loading is refused with `UnresolvedExternal`, the machine unchanged -/
-theorem unresolved_external_refuses_load (pre post : List Stmt) (stmt : Stmt) (l : Label) (src : Option (List Char)) (o : ObjFile)
-    (ha : assemble (pre ++ stmt :: post) src = .ok o)
-    (hn : stmt.nucleus = .directive (.external l)) (hl : stmt.labels = [])
-    (hfresh : ∀ p1, pre.foldlM pass1Step (p1Init src) = .ok p1 → lookupKey p1.labels (upperS l.name) = none)
-    (s : Sim) (blocks : List (W × List (Option W))) :
-    o.externalSymbols ≠ [] ∧ s.loadObj blocks (!o.externalSymbols.isEmpty) = (.error .unresolvedExternal, s) := by
-  unfold assemble at ha
-  split at ha
-  · cases ha
-  · rename_i t ht
-    -- pass 1: the name is external in the final table
-    have hext : ∃ d, lookupKey t.labels (upperS l.name) = some d ∧ d.ext = true := by
-      unfold pass1 at ht
-      split at ht
-      · cases ht
-      · rename_i st hfold
-        obtain ⟨p1, hpre, hrest⟩ := foldlM_append_ok pass1Step pre (stmt :: post) (p1Init src) st hfold
-        rw [List.foldlM_cons] at hrest
-        cases hs : pass1Step p1 stmt with
-        | error e => rw [hs] at hrest; cases hrest
-        | ok p1s =>
-          rw [hs] at hrest
-          obtain ⟨d, hd, he⟩ := external_declared p1 p1s stmt l hs hn hl (hfresh p1 hpre)
-          have hkeep := pass1_fold_keeps post p1s st hrest
-          unfold p1Finish at ht
-          split at ht
-          · cases ht
-          · cases ht; exact ⟨d, hkeep _ _ hd, he⟩
-    obtain ⟨d, hd, he⟩ := hext
-    have hmem := C23mem t.labels _ d hd
-    have hany : t.labels.any (fun e => e.2.ext) = true := List.any_eq_true.mpr ⟨_, hmem, he⟩
-    have hsym := externals_keep_symbol_table _ t src.isSome o ha hany
-    have hne := external_symbols_nonempty o t hsym _ d hmem he
-    refine ⟨hne, ?_⟩
-    have : (!o.externalSymbols.isEmpty) = true := by
-      cases hx : o.externalSymbols with
-      | nil => exact absurd hx hne
-      | cons a b => rfl
-    rw [this]
-    exact load_refused s blocks
-where
-  C23mem (m : List (Key × SymData)) (k : Key) (d : SymData) (h : lookupKey m k = some d) : (k, d) ∈ m := by
-    unfold lookupKey at h
-    cases hf : List.find? (fun e => e.1 == k) m with
-    | none => rw [hf] at h; cases h
-    | some x =>
-      rw [hf] at h
-      have h1 := List.find?_some hf
-      have h2 := List.mem_of_find?_eq_some hf
-      simp only [Option.map_some, Option.some.injEq] at h
-      have : x.1 = k := by simpa using h1
-      obtain ⟨xk, xd⟩ := x
-      simp only at this h
-      subst this; subst h
-      exact h2
-
-/-- **after linking in a file that defines the label, the word holds the label's address.**  File A declares `K` external and has
-    a relocation entry `(A, K)` (its `.fill K` at address `A`); file B defines `K` at address `V` (first entry for `K` in its
-    table, not external).  With the merged relocation table holding one entry per address and the cell `A` lying inside a block
-    of the merged image, the symbol-table part of `link` succeeds only with a result whose image holds `V` at `A`. -/
-theorem link_fills_external (at_ bt : SymTab) (blocks : Blocks) (r : ObjFile) (K : Key) (ad bd : SymData) (A : W)
-    (pre post : List (Key × SymData))
-    (hA : (A, K) ∈ bt.rel.foldl (fun m e => relInsert m e.1 e.2) at_.rel)
-    (hUA : (bt.rel.foldl (fun m e => relInsert m e.1 e.2) at_.rel).Pairwise (fun x y => x.1 ≠ y.1))
-    (hl : lookupKey at_.labels K = some ad) (hext : ad.ext = true)
-    (hb : bt.labels = pre ++ (K, bd) :: post) (hpre : ∀ e ∈ pre, (e.1 == K) = false) (hdef : bd.ext = false)
-    (hu : blocks.Pairwise (fun x y => x.1 ≠ y.1)) (hcell : (cell blocks A).isSome = true)
-    (h : linkSyms at_ bt blocks = .ok r) : cell r.blocks A = some (some bd.addr) := by
-  unfold linkSyms at h
-  dsimp only at h
-  rw [hb] at h
-  cases hf : (pre ++ (K, bd) :: post).foldlM (fun st e => linkLabel st (e.1, { e.2 with srcStart := satAdd e.2.srcStart (linkShift at_ bt) }))
-      ⟨at_.labels, bt.rel.foldl (fun m e => relInsert m e.1 e.2) at_.rel, []⟩ with
-  | error e => rw [hf] at h; cases h
-  | ok stf =>
-    rw [hf] at h
-    cases h
-    obtain ⟨h1, h2⟩ := linkFold_resolves (fun e => (e.1, { e.2 with srcStart := satAdd e.2.srcStart (linkShift at_ bt) }))
-      (fun _ => rfl) (fun _ => ⟨rfl, rfl⟩) _ stf pre post K ad bd A hpre hl hext hdef hA hUA (fun r hr => by cases hr) hf
-    exact patch_fold A bd.addr stf.relocs blocks hu hcell (fun r hr => h2 r hr) (Or.inr h1)
-
-/-- **every `.fill EXT` owns its relocation entry, for any source text.**  `src` parses to `stmts` and assembles to `obj`; `s` is a
-    `.fill LABEL` statement of the program and the label is external in the pass-1 table `t`.  Then the object file keeps `t`,
-    the program is a sequence of blocks in which `s` sits at `b.a + size(pre)`, the relocation table holds exactly that
-    address with the label's name, and loading the file is refused with `UnresolvedExternal` (machine unchanged). -/
-theorem source_fill_external_owns_entry (src : List Char) (stmts : List Stmt) (dbg : Bool) (obj : ObjFile)
-    (hp : parseAst src = .ok stmts) (ha : assemble stmts (if dbg then some src else none) = .ok obj)
-    (s : Stmt) (hsm : s ∈ stmts) (l : Label) (hs : s.nucleus = .directive (.fill (.label l)))
-    (t : SymTab) (hp1 : pass1 stmts (if dbg then some src else none) = .ok t)
-    (d : SymData) (hd : lookupKey t.labels (upperS l.name) = some d) (hext : d.ext = true)
-    (sim : Sim) (blocks : List (W × List (Option W))) :
-    obj.sym = some t ∧
-    (∃ (before : List Blk) (b : Blk) (after : List Blk) (tail pre post : List Stmt),
-      stmts = (before ++ b :: after).flatMap Blk.stmts ++ tail ∧ b.WF ∧ b.body = pre ++ s :: post ∧
-      (b.a + sizeOf' pre, upperS l.name) ∈ t.rel) ∧
-    obj.externalSymbols ≠ [] ∧ sim.loadObj blocks (!obj.externalSymbols.isEmpty) = (.error .unresolvedExternal, sim) := by
-  obtain ⟨hstr, hsized, _⟩ := parsed_program_lines src stmts hp
-  obtain ⟨blks, tail, t', hprog, hwf, hp1', hexts, hsorted, hall, hmem⟩ := C01.assembled_image_any stmts _ obj ha
-  rw [hp1] at hp1'; cases hp1'
-  subst hprog
-  have htail : ∀ x ∈ tail, isOrigEnd x.nucleus = false := by
-    intro x hx
-    have := hexts.2 x hx
-    cases hn : x.nucleus with
-    | instr i => rfl
-    | directive d => rw [hn] at this; cases d <;> first | rfl | cases this
-  -- pass 2 succeeded: blocks clear of each other; symbol table kept because an external label exists
-  have hmemlab : (upperS l.name, d) ∈ t.labels := lookupKey_mem t.labels _ d hd
-  have hany : t.labels.any (fun e => e.2.ext) = true := List.any_eq_true.mpr ⟨_, hmemlab, hext⟩
-  have hp2 : ∃ st, (blks.flatMap Blk.stmts ++ tail).foldlM (pass2Step t) ⟨[], none⟩ = .ok st ∧ obj.sym = some t := by
-    unfold assemble at ha
-    rw [hp1] at ha
-    dsimp only at ha
-    have hsym := externals_keep_symbol_table _ t _ obj ha hany
-    unfold pass2 at ha
-    cases hf : (blks.flatMap Blk.stmts ++ tail).foldlM (pass2Step t) ⟨[], none⟩ with
-    | error e => rw [hf] at ha; cases ha
-    | ok st => exact ⟨st, rfl, hsym⟩
-  obtain ⟨st2, hf2, hsym⟩ := hp2
-  have hclear := (pass2_accepted_clear t blks [] tail st2 hwf htail ⟨List.Pairwise.nil, fun x hx => by cases hx⟩ hf2).1
-  have hws : ∀ b ∈ blks, ∃ ws, bodyWords t b.a b.body = .ok ws := fun b hb => let ⟨ws, hw, _⟩ := hall b hb; ⟨ws, hw⟩
-  have hmemstmt : ∀ b ∈ blks, ∀ x ∈ b.body, x ∈ blks.flatMap Blk.stmts ++ tail := by
-    intro b hb x hx
-    apply List.mem_append_left
-    exact List.mem_flatMap.mpr ⟨b, hb, by unfold Blk.stmts; simp [hx]⟩
-  have hsz : ∀ b ∈ blks, Sized b.body := fun b hb x hx hn => hsized x (hmemstmt b hb x hx) hn
-  have hss : ∀ b ∈ blks, ShortStrings b.body := fun b hb x hx y hy => hstr x (hmemstmt b hb x hx) y hy
-  -- where `s` sits
-  have hin : ∃ b ∈ blks, s ∈ b.body := by
-    rcases List.mem_append.mp hsm with h1 | h1
-    · obtain ⟨b, hb, hsb⟩ := List.mem_flatMap.mp h1
-      refine ⟨b, hb, ?_⟩
-      unfold Blk.stmts at hsb
-      have hbw := hwf b hb
-      rcases List.mem_append.mp hsb with h2 | h2
-      · have := hexts.1 b hb s h2; rw [hs] at this; cases this
-      · rcases List.mem_cons.mp h2 with h3 | h3
-        · rw [h3, hbw.orig] at hs; cases hs
-        · rcases List.mem_append.mp h3 with h4 | h4
-          · exact h4
-          · simp only [List.mem_singleton] at h4
-            rw [h4, hbw.end_] at hs; cases hs
-    · have := hexts.2 s h1; rw [hs] at this; cases this
-  obtain ⟨b, hb, hsb⟩ := hin
-  obtain ⟨before, after, hblks⟩ := List.append_of_mem hb
-  obtain ⟨pre, post, hbody⟩ := List.append_of_mem hsb
-  subst hblks
-  have hentry := fill_external_owns_entry before b after tail pre post s l _ t hwf htail hbody hs hp1 hws hclear hsz hss d hd hext
-  refine ⟨hsym, ⟨before, b, after, tail, pre, post, rfl, hwf b hb, hbody, hentry⟩, ?_⟩
-  have hne := external_symbols_nonempty obj t hsym _ d hmemlab hext
-  refine ⟨hne, ?_⟩
-  have : (!obj.externalSymbols.isEmpty) = true := by
-    cases hx : obj.externalSymbols with
-    | nil => exact absurd hx hne
-    | cons a r => rfl
-  rw [this]
-  exact load_refused sim blocks
 
 def obligations : List Lean.Name :=
   [``source_fill_external_owns_entry, ``Lc3V.fill_external_owns_entry, ``Lc3V.rel_survives, ``Lc3V.pass1Step_rel,
    ``link_fills_external, ``Lc3V.linkFold_resolves, ``Lc3V.patch_fold, ``rel_entries_are_external, ``fill_records_candidate, ``externals_keep_symbol_table, ``external_symbols_nonempty,
-   ``load_refused, ``link_resolves, ``patch_sets_word, ``external_declared, ``unresolved_external_refuses_load]
+   ``load_refused, ``link_resolves, ``patch_sets_word, ``external_declared, ``unresolved_external_refuses_load,
+   ``tree_fills_external, ``tree_unresolved_refuses_load, ``C20.LTree.spec, ``C20.link_spec, ``C20.source_fileWF]
 
 end Lc3V.C21
